@@ -31,6 +31,9 @@ def generate(seed, tier):
     for op in scn['actors'][0]:
         if op['op'] == 'push' and not op.get('mtime'):
             op['mtime'] = 1234      # mtime 0 means 'now', which legitimately differs between the paired runs (fragmented delivery takes longer)
+    if g.chance(0.25):
+        # a device that announces a newer protocol version: the connection still runs at the library's 0x01000000, checksums stay mandatory
+        scn['device']['version'] = g.pick([0x01000001, 0x01000001, 0x01000002, 0xFFFFFFFF])
     case = {'seed': seed, 'scn': scn}
     if g.chance(0.35):
         case['corrupt'] = {'pick': g.int(0, 1 << 30), 'kind': g.pick(['byte', 'bit', 'cmd', 'cmd']), 'off': g.int(0, 1 << 20), 'bitno': g.int(0, 7), 'delta': g.int(0, 253)}
